@@ -554,6 +554,8 @@ def run(ctx):
     from .shared import import_rules
     import_rules(ctx, r11, "C08", only={"R1"}, select=lambda c: "CustomEncoder" in c or "wire-state-encoding" in c or "encode::encoder" in c)
     import_rules(ctx, r11, "C08", only={"R2"})      # ... and the client looks each task up under the id the pool gave it (ids keep their type between submit, state file and query)
+    r12 = ctx.rule("R12", "'the pool keeps accepting and running tasks': no request, well-formed or not, can take a core out of the pool for good (C12.R2)")
+    import_rules(ctx, r12, "C12", only={"R2"})
     r10 = ctx.rule("R10", "'a state query returns each task's state under its own id': an id that was handed out stays in the pool's tables")
     from .localpool import rule_tasks_never_forgotten
     rule_tasks_never_forgotten(ctx, r10, "a client asking for that id gets no state (or an exception kills its connection and the requests queued behind it)")
